@@ -358,16 +358,7 @@ func playScript(o *ndjson, sc abScript, seed int64) (obj, error) {
 	r := &run{o: o, rng: rng, n: n, q: hotstuff.QuorumSize(n), nodes: nodes, byz: map[hotstuff.ID]bool{byzID: true}, lr: scriptLR{n: n, script: &script},
 		script: &script, fixedLeader: int(byzID), lmode: "fixed", blockID: map[hotstuff.Hash]int{hotstuff.GetGenesis().Hash(): 0},
 		blocks: map[int]*hotstuff.Block{0: hotstuff.GetGenesis()}, nextCmd: map[int]int{}, fetchOK: 100, coopDone: map[int]bool{}, bytesID: map[int]string{}}
-	fetch := func(by hotstuff.ID, h hotstuff.Hash) (*hotstuff.Block, bool) {
-		for _, x := range nodes {
-			if x.ID != by {
-				if b, ok := x.BC.LocalGet(h); ok {
-					return b, true
-				}
-			}
-		}
-		return nil, false
-	}
+	fetch := func(by hotstuff.ID, h hotstuff.Hash) (*hotstuff.Block, bool) { return r.fetchFrom(by, h, true) }
 	for _, x := range nodes {
 		x.Fetch = fetch
 	}
